@@ -421,27 +421,86 @@ class GeoInterp:
             return self.p_add_a(b, a)
         raise AnalysisError(f'cannot add {a[0]} + {b[0]}')
 
-    def eval(self, e: ast.AST, env: Dict[str, tuple]):
+    # ------------------------------------------------------------------
+    # evaluation of extracted expressions; `module` gives the scope for tables and helpers
+    def eval(self, e: ast.AST, env: Dict[str, tuple], module=None, depth: int = 4):
+        module = module or self.g.index.module(GEOM)
+        ev = lambda x: self.eval(x, env, module, depth)
+        if isinstance(e, ast.Constant) and isinstance(e.value, int) and \
+                not isinstance(e.value, bool):
+            return ('N', Aff.const(e.value))
         if isinstance(e, ast.Name):
             if e.id in env:
                 return env[e.id]
+            vals = module.assigns.get(e.id)
+            if vals and len(vals) == 1 and isinstance(vals[0], ast.Dict):
+                return ('D', vals[0], module)
+            r = self.g.index.resolve_name(module, e.id)
+            if isinstance(r, tuple) and r and r[0] == 'var':
+                tv = r[1].assigns.get(r[2])
+                if tv and len(tv) == 1 and isinstance(tv[0], ast.Dict):
+                    return ('D', tv[0], r[1])
             raise AnalysisError(f'geometry expression: unbound name `{e.id}`')
         em = self.g.index.enum_member(e)
         if em and em[0] == 'Orientation':
             return ('O', em[1])
+        if em:
+            return ('E', em[0], em[1])
+        if isinstance(e, (ast.Tuple, ast.List)):
+            return ('U', tuple(ev(x) for x in e.elts))
         if isinstance(e, ast.Attribute):
-            v = self.eval(e.value, env)
-            if v[0] == 'T' and e.attr == 'position':
-                return v[1]
-            if v[0] == 'T' and e.attr == 'orientation':
-                return v[2]
-            if v[0] == 'T' and e.attr == 'transform':
-                return v
+            v = ev(e.value)
+            a = e.attr
+            if v[0] == 'T':
+                if a == 'position':
+                    return v[1]
+                if a == 'orientation':
+                    return v[2]
+                if a == 'transform':
+                    return v
+            if v[0] == 'P':
+                if a == 'y':
+                    return ('N', v[1][0])
+                if a == 'x':
+                    return ('N', v[1][1])
+                if a == 'yx':
+                    return ('U', (('N', v[1][0]), ('N', v[1][1])))
+            if v[0] == 'A':
+                (ymin, ymax), (xmin, xmax) = v[1]
+                table = {'ymin': ymin, 'ymax': ymax, 'xmin': xmin, 'xmax': xmax,
+                         'height': ymax - ymin + 1, 'width': xmax - xmin + 1}
+                if a in table:
+                    return ('N', table[a])
+                if a == 'ys':
+                    return ('U', (('N', ymin), ('N', ymax)))
+                if a == 'xs':
+                    return ('U', (('N', xmin), ('N', xmax)))
+            raise AnalysisError(f'geometry expression: `{src(e)}`')
+        if isinstance(e, ast.Subscript):
+            v = ev(e.value)
+            if v[0] == 'U' and isinstance(e.slice, ast.Constant) and \
+                    isinstance(e.slice.value, int):
+                return v[1][e.slice.value]
+            if v[0] == 'D':
+                key = ev(e.slice)
+                return self.lookup(v, key, depth)
             raise AnalysisError(f'geometry expression: `{src(e)}`')
         if isinstance(e, ast.UnaryOp) and isinstance(e.op, ast.USub):
-            return self.neg(self.eval(e.operand, env))
+            v = ev(e.operand)
+            if v[0] == 'N':
+                return ('N', -v[1])
+            return self.neg(v)
         if isinstance(e, ast.BinOp):
-            a, b = self.eval(e.left, env), self.eval(e.right, env)
+            a, b = ev(e.left), ev(e.right)
+            if a[0] == b[0] == 'N':
+                if isinstance(e.op, ast.Add):
+                    return ('N', a[1] + b[1])
+                if isinstance(e.op, ast.Sub):
+                    return ('N', a[1] - b[1])
+                if isinstance(e.op, ast.Mult):
+                    return ('N', a[1] * b[1])
+                if isinstance(e.op, ast.FloorDiv) and b[1].is_const() and a[1].is_const():
+                    return ('N', Aff.const(a[1].k // b[1].k))
             if isinstance(e.op, ast.Mult):
                 return self.mul(a, b)
             if isinstance(e.op, ast.Add):
@@ -450,15 +509,93 @@ class GeoInterp:
                 return self.p_sub_p(a, b)
         if isinstance(e, ast.Call):
             f = src(e.func)
-            if f == 'Transform' and len(e.args) == 2:
-                return ('T', self.eval(e.args[0], env), self.eval(e.args[1], env))
-            if f == 'Position' and len(e.args) == 2:
-                return ('P', tuple(aff_of(a, lambda x: None) for a in e.args))
-            if f == 'Position.from_orientation' and len(e.args) == 1:
-                o = self.eval(e.args[0], env)
-                d = self.g.delta[o[1]]
+            args = [ev(a) for a in e.args]
+            if f == 'Transform' and len(args) == 2:
+                return ('T', args[0], args[1])
+            if f == 'Position' and len(args) == 2 and args[0][0] == args[1][0] == 'N':
+                return ('P', (args[0][1], args[1][1]))
+            if f == 'Area' and len(args) == 2 and all(
+                    a[0] == 'U' and len(a[1]) == 2 and all(x[0] == 'N' for x in a[1])
+                    for a in args):
+                return ('A', tuple(tuple(x[1] for x in a[1]) for a in args))
+            if f == 'Position.from_orientation' and len(args) == 1 and args[0][0] == 'O':
+                d = self.g.delta[args[0][1]]
                 return ('P', (Aff.const(d[0]), Aff.const(d[1])))
+            if isinstance(e.func, ast.Name) and e.func.id in module.functions and depth > 0:
+                fn = module.functions[e.func.id]
+                names = [a.arg for a in fn.node.args.posonlyargs + fn.node.args.args]
+                bound = dict(zip(names, args))
+                for k in e.keywords:
+                    if k.arg:
+                        bound[k.arg] = ev(k.value)
+                return self.call(fn, bound, depth - 1)
         raise AnalysisError(f'geometry expression outside the grammar: `{src(e)}`')
+
+    def lookup(self, table, key, depth: int):
+        _, node, mod = table
+        for k, v in zip(node.keys, node.values):
+            try:
+                kv = self.eval(k, {}, mod, depth)
+            except AnalysisError:
+                continue
+            if kv == key:
+                return self.eval(v, {}, mod, depth)
+        raise GeoKeyError(key)
+
+    def holds(self, f, env, module, walk, depth: int) -> bool:
+        k = f[0]
+        if k == 'true':
+            return True
+        if k == 'false':
+            return False
+        if k == 'iter':
+            return True
+        if k == 'not':
+            return not self.holds(f[1], env, module, walk, depth)
+        if k == 'and':
+            return all(self.holds(x, env, module, walk, depth) for x in f[1:])
+        if k == 'or':
+            return any(self.holds(x, env, module, walk, depth) for x in f[1:])
+        if k == 'raises':
+            body = f[2].body[0]
+            val = body.value if isinstance(body, (ast.Assign, ast.Expr, ast.Return)) else None
+            if val is None:
+                raise AnalysisError('unmodelled try body')
+            try:
+                self.eval(walk.expand(val), env, module, depth)
+                return False
+            except GeoKeyError:
+                return 'KeyError' in f[1]
+        if k == 'atom':
+            e = f[1]
+            if isinstance(e, ast.Call) and src(e.func) == 'isinstance' and len(e.args) == 2:
+                v = self.eval(walk.expand(e.args[0]), env, module, depth)
+                t = e.args[1]
+                names = [src(x) for x in (t.elts if isinstance(t, ast.Tuple) else [t])]
+                tag = {'O': 'Orientation', 'P': 'Position', 'A': 'Area', 'T': 'Transform'}
+                return tag.get(v[0]) in names
+            if isinstance(e, ast.Compare) and len(e.ops) == 1 and \
+                    isinstance(e.ops[0], (ast.Is, ast.Eq)):
+                a = self.eval(walk.expand(e.left), env, module, depth)
+                b = self.eval(walk.expand(e.comparators[0]), env, module, depth)
+                return a == b
+        raise AnalysisError(f'geometry guard outside the grammar: `{show(f)}`')
+
+    def call(self, fn, bound: Dict[str, tuple], depth: int = 3):
+        """denotation of a small pure function: the value of the first return whose guard
+        holds for the given (concrete-enum, symbolic-coordinate) arguments"""
+        w = walk_function(fn.node)
+        for e in w.events:
+            if e.kind in ('return', 'raise'):
+                if self.holds(strip_iter(e.guard), bound, fn.module, w, depth):
+                    if e.kind == 'raise' or e.value is None:
+                        return ('X', src(e.value) if e.value is not None else 'None')
+                    return self.eval(w.expand(e.value), bound, fn.module, depth)
+        return ('X', 'falls off the end')
+
+
+class GeoKeyError(Exception):
+    pass
 
 
 def P(y: str, x: str):
